@@ -629,18 +629,20 @@ theorem refresh_after_history (env : Env) (s : State) (ops : List HOp)
 /-! ### '-' and '_' spellings are one entry — over whole histories
 
 `WellKeyed` (`Lemmas/ConfigWellKeyed.lean`): at every level no key mixes '-' and '_' and no
-key is present in both spellings.  `set` preserves it, because `_assign` always writes under
-the spelling that is already stored; so after ANY history of `set` calls and `with` blocks a
-value can be read back under the other spelling of every path component. -/
+key is present in both spellings.  Every operation preserves it, because `_assign` and `update`
+always write under the spelling that is already stored; so after ANY history a value can be
+read back under the other spelling of every path component. -/
 
 /-- the items of a `set` call use keys that do not mix the two characters and well-keyed values -/
 def ItemsOK (items : List (Key × Tree)) : Prop :=
   ∀ kv ∈ items, (∀ c ∈ splitDots kv.1, Uniform c) ∧ WellKeyed kv.2
 
-def SetOnly : HOp → Prop
+/-- the operations of a history use uniformly spelled keys (at every depth of a mapping) -/
+def OpOK : HOp → Prop
   | .set items => ItemsOK items
   | .withBlock items => ItemsOK items
-  | _ => False
+  | .updateDefaults new => UKeys (.node new)
+  | .refresh => True
 
 theorem wellKeyed_setItems (env : Env) (items : List (Key × Tree)) :
     ∀ (cfg : Dict) (rec_ : List RecOp), WellKeyed (.node cfg) → ItemsOK items →
@@ -662,10 +664,11 @@ theorem wellKeyed_setItems (env : Env) (items : List (Key × Tree)) :
         exact wellKeyed_assign _ v' (wellKeyed_checkKeyVal env _ _ _ this.2 hc) _ _ _ _ h this.1 h1
     · exact h
 
-/-- **the invariant holds along every history of `set` calls and `with` blocks**, raising or not -/
+/-- **the invariant holds along every history** of `set` calls, `with` blocks,
+`update_defaults` and `refresh` — raising or not — whose keys do not mix '-' and '_':
+no level of the configuration ever holds a key in both spellings -/
 theorem wellKeyed_history (env : Env) (ops : List HOp) :
-    ∀ (s : State), WellKeyed (.node s.config) → (∀ op ∈ ops, SetOnly op) →
-      WellKeyed (.node (hrun env s ops).config) := by
+    ∀ (s : State), StateOK s → (∀ op ∈ ops, OpOK op) → StateOK (hrun env s ops) := by
   induction ops with
   | nil => intro s h _; exact h
   | cons op rest ih =>
@@ -674,9 +677,9 @@ theorem wellKeyed_history (env : Env) (ops : List HOp) :
     apply ih _ _ (fun o ho => hall o (by simp [ho]))
     have hop := hall op (by simp)
     cases op with
-    | set items => exact wellKeyed_setItems env items _ _ h hop
+    | set items => exact ⟨wellKeyed_setItems env items _ _ h.1 hop, h.2⟩
     | withBlock items =>
-      have hw := wellKeyed_setItems env items s.config [] h hop
+      have hw := wellKeyed_setItems env items s.config [] h.1 hop
       rcases hs : setItems env s.config [] items with ⟨cfg, rec_, e⟩
       rw [hs] at hw
       cases e with
@@ -684,17 +687,18 @@ theorem wellKeyed_history (env : Env) (ops : List HOp) :
         simp only [hstep, hs]
         rw [with_block_restores env items s.config cfg rec_ .none hs]
         exact h
-      | some e => simpa [hstep, hs] using hw
-    | updateDefaults new => exact absurd hop (by simp [SetOnly])
-    | refresh => exact absurd hop (by simp [SetOnly])
+      | some e => exact ⟨by simpa [hstep, hs] using hw, by simpa [hstep, hs] using h.2⟩
+    | updateDefaults new => exact stateOK_updateDefaultsP env s new h hop
+    | refresh => exact stateOK_refreshP env s h
 
 /-- **last writer wins under the other spelling too.**  From a well-keyed state, after any
-history of `set` calls / `with` blocks (raising or not), a `set` item writes `v` to `key`;
+history of `set` calls, `with` blocks, `update_defaults` and `refresh` (raising or not, keys
+not mixing '-' and '_'), a `set` item writes `v` to `key`;
 then any further history that does not write to the respelled path.  Reading `key` with
 EVERY component in its other '-'/'_' spelling returns `v`. -/
 theorem lww_history_twin (env : Env) (s : State) (pre post : List HOp) (its1 its2 : List (Key × Tree))
     (key : Key) (v v' : Tree)
-    (hs : WellKeyed (.node s.config)) (hpre : ∀ op ∈ pre, SetOnly op) (h1ok : ItemsOK its1)
+    (hs : StateOK s) (hpre : ∀ op ∈ pre, OpOK op) (h1ok : ItemsOK its1)
     (hkey : ∀ c ∈ splitDots key, Uniform c)
     (hv : checkKeyVal env key v = .ok v')
     (hok : (setItems env (hrun env s pre).config [] (its1 ++ [(key, v)])).2.2 = .none)
@@ -707,7 +711,7 @@ theorem lww_history_twin (env : Env) (s : State) (pre post : List HOp) (its1 its
     simp [hrun, List.foldl_append]
   rw [hrun_app]
   apply hrun_frame env _ _ _ _ hpost
-  have hw0 := wellKeyed_history env pre s hs hpre
+  have hw0 := (wellKeyed_history env pre s hs hpre).1
   generalize hrun env s pre = s0 at hok hw0 ⊢
   simp only [hstep]
   have hw1 := wellKeyed_setItems env its1 s0.config [] hw0 h1ok
@@ -828,5 +832,15 @@ example : ItemsOK [(kab', .leaf (.int 2))] ∧ (∀ c ∈ splitDots kab', Unifor
   simp at hkv
   subst hkv
   exact ⟨hu, .leaf _⟩
+
+example : StateOK { config := cfg0, defaults := [] } := by
+  refine ⟨?_, by simp⟩
+  have h1 := wellKeyed_dset [] kab (.leaf (.int 1)) wellKeyed_nil (by unfold Uniform; decide) (.leaf _)
+  have hsub := wellKeyed_dset [] kcmap (.leaf (.str "gray")) wellKeyed_nil (by unfold Uniform; decide) (.leaf _)
+  exact wellKeyed_dset _ kviz _ h1 (by unfold Uniform; decide) hsub
+example : OpOK (.updateDefaults [(kab', .leaf (.int 7))]) ∧ OpOK .refresh := by
+  refine ⟨.node _ ?_ ?_, trivial⟩
+  · intro k t h; simp at h; rw [h.1]; unfold Uniform; decide
+  · intro k t h; simp at h; rw [h.2]; exact .leaf _
 
 end QuantemModel.Props.C19
